@@ -181,8 +181,38 @@ pub fn run_case(rep: &mut Report, p: &Params) {
     }
     let requester = Src { pid: Pid { clock: [9, 9, 9, 9, 9, 9, 9, 9], port: 7 }, domain: p.domain, sdo: p.sdo, minor_version: 1 };
     let n_ops = p.ops;
-    for opi in 0..n_ops {
-        let kind = if p.wrap { opi % 3 } else { rng.gen_range(0..5) };
+    // P2P ports answer Pdelay_Req in every state: after the regular operations the port is driven
+    // into the faulty state (two responders answer one of its own requests) and asked again
+    let extra = if p.p2p && !p.wrap { 6 } else { 0 };
+    let mut faulty_phase = false;
+    for opi in 0..n_ops + extra {
+        if opi == n_ops {
+            let acts = call!(Call::DelayRequestTimer, "delay request timer");
+            let mut req_seq = None;
+            for a in &acts {
+                if let Act::SendEvent { data, .. } = a {
+                    if let Ok(m) = Msg::decode(data) {
+                        if m.hdr.msg_type == T_PDELAY_REQ {
+                            req_seq = Some(m.hdr.seq);
+                        }
+                    }
+                }
+            }
+            let Some(rs) = req_seq else { break };
+            let t = lattice_time(&mut rng);
+            for who in [0x71u8, 0x72] {
+                let responder = Src { pid: Pid { clock: [who; 8], port: 1 }, domain: p.domain, sdo: p.sdo, minor_version: 1 };
+                let m = responder.pdelay_resp(rs, false, Ts { secs: 5, nanos: 0 }, own, 0);
+                let _ = call!(Call::EventRx(m.encode(), time_from_units(t)), "Pdelay_Resp receive");
+            }
+            if !is_state(&node, 0, statime::observability::port::PortState::Faulty) {
+                rep.ev("faulty_state_not_reached");
+                break;
+            }
+            rep.ev("port_made_faulty");
+            faulty_phase = true;
+        }
+        let kind = if faulty_phase { 3 } else if p.wrap { opi % 3 } else { rng.gen_range(0..5) };
         match kind {
             0 => {
                 // Sync + Follow_Up
@@ -293,6 +323,9 @@ pub fn run_case(rep: &mut Report, p: &Params) {
                 let acts = call!(Call::EventRx(req.encode(), time_from_units(t2)), "Pdelay_Req receive");
                 let em = check_emitted(rep, "C10", &acts, own, p.domain, p.sdo, &replay);
                 rep.ev("pdelay_req_resp_pair");
+                if faulty_phase {
+                    rep.ev("pdelay_req_to_faulty_port");
+                }
                 let mut ctx = None;
                 for a in acts {
                     if let Act::SendEvent { ctx: c, .. } = a {
